@@ -401,6 +401,9 @@ func (g *gen) runChainOn(root, db *gorm.DB, parts []part, fin string) (out outco
 	case "Pluck":
 		conds()
 		requireKinds["having"], requireKinds["joins"], requireKinds["table"], requireKinds["order"] = true, true, true, true
+		// a select list that carries arguments is a clause of its own, which Pluck keeps (it adds its column only
+		// when no SELECT clause exists): the values stay bound (seeded change C01-s)
+		requireKinds["select"] = true
 		var xs []string
 		res = db.Model(&Tag{}).Pluck("c1", &xs)
 	case "Update":
